@@ -405,12 +405,20 @@ PROPS["C17"] = {
         {"pkg": "rhp/v4", "harness": ["harness/c17/c17.go"], "run": "^VH_C17_", "params": {"quick": {"mul_uf": 1, "tax_uf": 1, "int_mode": 1, "cur_lift": 1}, "thorough": {"mul_uf": 1, "tax_uf": 1, "int_mode": 1, "cur_lift": 1}},
          "flags": {"quick": ["-timeout", "2000"], "thorough": ["-timeout", "20000"]},
          "must_reach": {"VH_C17_PayWithContract": ["paid", "insufficient"], "VH_C17_Renew": ["end"], "VH_C17_Form": ["end"], "VH_C17_Refresh": ["end"]}, "tv_harnesses": ["VH_C17_PayWithContract", "VH_C17_Form", "VH_C17_Refresh"]},
+        {"pkg": "rhp/v2", "harness": ["harness/c17v1/c17_rhp2.go"], "run": "^VH_C17_V1(TaxInversion|Formation)$",
+         "params": {"quick": {"int_mode": 1, "cur_lift": 1, "cur_lift_mul": 1, "mul_uf": 1, "big_w": 320, "int_alt": 1}, "thorough": {"int_mode": 1, "cur_lift": 1, "cur_lift_mul": 1, "mul_uf": 1, "big_w": 320, "int_alt": 1}},
+         "flags": {"quick": ["-timeout", "20000"], "thorough": ["-timeout", "20000"]},
+         "must_reach": {"VH_C17_V1TaxInversion": ["end"], "VH_C17_V1Formation": ["end"]}, "tv_harnesses": ["VH_C17_V1TaxInversion", "VH_C17_V1Formation"]},
+        {"pkg": "rhp/v2", "harness": ["harness/c17v1/c17_rhp2.go"], "run": "^VH_C17_V1Renewal$",
+         "params": {"quick": {"int_mode": 1, "cur_lift": 1, "cur_lift_mul": 1, "mul_uf": 1, "big_w": 320, "int_alt": 1}, "thorough": {"int_mode": 1, "cur_lift": 1, "cur_lift_mul": 1, "mul_uf": 1, "big_w": 320, "int_alt": 1}},
+         "flags": {"quick": ["-timeout", "20000"], "thorough": ["-timeout", "20000"]},
+         "must_reach": {"VH_C17_V1Renewal": ["end"]}, "thorough_only": True},
     ],
     "tv_runs": {"quick": 2, "thorough": 6},
-    "bounds": {"quick": "one constructor step from an arbitrary consensus-valid v2 contract (values < 2^104): PayWithContract (all Revise* constructors go through it) with arbitrary usage; RenewContract + RenewalCost with arbitrary prices and parameters whose price*size*duration products do not overflow; NewContract + ContractCost (terms carried over, value relations, costs fund contract + tax + fee exactly, host pays exactly its collateral); RefreshContractPartialRollover / FullRollover + RefreshCost (old value split exactly, rollover <= new contract cost, value relations, file/window/keys unchanged, collateral at risk unchanged, costs + rollovers fund the refreshed contract + tax + fee exactly, no panic)", "thorough": "same"},
-    "outside": ["v1-era (rhp/v2, rhp/v3) payout/tax equations", "refresh starts from a contract with missed host value <= total collateral (the state RHP4's own constructors keep a contract in; RiskedCollateral() panics otherwise)", "products price*size*duration are uninterpreted (the identities checked do not depend on their value); paths where they overflow 2^128 panic in Currency.Mul64 and are outside the claim",
+    "bounds": {"quick": "one constructor step from an arbitrary consensus-valid v2 contract (values < 2^104): PayWithContract (all Revise* constructors go through it) with arbitrary usage; RenewContract + RenewalCost with arbitrary prices and parameters whose price*size*duration products do not overflow; NewContract + ContractCost (terms carried over, value relations, costs fund contract + tax + fee exactly, host pays exactly its collateral); RefreshContractPartialRollover / FullRollover + RefreshCost (old value split exactly, rollover <= new contract cost, value relations, file/window/keys unchanged, collateral at risk unchanged, costs + rollovers fund the refreshed contract + tax + fee exactly, no panic); v1 era (rhp/v2): for EVERY payout target below 2^100, taxAdjustedPayout(target) == target + FileContractTax(that payout) (real Currency.Mul64/Div64 lifted to wide operations, real big.Int tax code, decided in linear integer arithmetic by cvc5 / z3 5.x); PrepareContractFormation yields equal valid/missed sums, a non-empty window, payout == taxAdjustedPayout(valid sum) with the sum inside the lemma's range, the requested terms, and ContractFormationCost == renter payout + fee + tax", "thorough": "same"},
+    "outside": ["rhp/v3 renewal constructors (same taxAdjustedPayout code; not run), v1 renewal at quick tier (thorough only: about 10 minutes), pre-tax-hardfork tax rule (big.Rat)", "refresh starts from a contract with missed host value <= total collateral (the state RHP4's own constructors keep a contract in; RiskedCollateral() panics otherwise)", "products price*size*duration are uninterpreted (the identities checked do not depend on their value); paths where they overflow 2^128 panic in Currency.Mul64 and are outside the claim",
                 "request Validate methods are not executed; the height relations they guarantee are assumed"],
-    "stubs": ["math/bits.Mul64 of two symbolic operands: uninterpreted product", "V2FileContractTax: uninterpreted tax(value) <= value", "Currency Add/Sub/Cmp lifted to 128 bits; integer rendering"],
+    "stubs": ["v1 era: Currency.Mul64WithOverflow / quoRem64 replaced by single 192/128-bit operations (Mul64 limb code vs this meaning: C15; quoRem64 is assumed to be the schoolbook two-step division by a 64-bit divisor); math/big.Int modelled at 320 bits", "math/bits.Mul64 of two symbolic operands: uninterpreted product", "V2FileContractTax: uninterpreted tax(value) <= value", "Currency Add/Sub/Cmp lifted to 128 bits; integer rendering"],
     "assumptions": COMMON_ASSUME,
 }
 MANIFEST_TEXT["C17"] = {
